@@ -22,6 +22,7 @@ func c14Specs(tier string) []*Spec {
 		add("default/d7", defaultCfg, 7, 3)
 		add("iv1/d6", iv(1), 6, 3)
 		add("iv7/d6", iv(7), 6, 3)
+		add("iv7-setter/d6", Cfg{Fast: true, IVSet: true, IV: 7, IVSetter: true}, 6, 3)
 		add("nofast/d6", noFast, 6, 3)
 		add("flush150/d6", flush, 6, 3)
 		add("cache1000/d6", cache, 6, 3)
@@ -30,6 +31,7 @@ func c14Specs(tier string) []*Spec {
 	add("default/d8", defaultCfg, 8, 3)
 	add("iv1/d7", iv(1), 7, 3)
 	add("iv7/d7", iv(7), 7, 3)
+	add("iv7-setter/d7", Cfg{Fast: true, IVSet: true, IV: 7, IVSetter: true}, 7, 3)
 	add("nofast/d7", noFast, 7, 3)
 	add("flush150/d7", flush, 7, 3)
 	add("cache1000/d7", cache, 7, 3)
